@@ -238,9 +238,12 @@ class Report:
         wall = time.time() - self.t0
         # replay files + violation lines
         rc = 0
+        # runs against a scratch tree (QV_REPO set by my own seed trials) must not overwrite the evidence of /repo
+        scratch = os.environ.get("QV_REPO") not in (None, "", "/repo") or os.environ.get("QV_DEV_SKIP_DEDUCTIVE") == "1"
+        OUT = os.path.join(ROOT, "out", "scratch") if scratch else ROOT
         for i, v in enumerate(self.violations):
-            os.makedirs(os.path.join(ROOT, "replays", self.prop), exist_ok=True)
-            path = os.path.join(ROOT, "replays", self.prop, f"{_safe(v['id'])}.json")
+            os.makedirs(os.path.join(OUT, "replays", self.prop), exist_ok=True)
+            path = os.path.join(OUT, "replays", self.prop, f"{_safe(v['id'])}.json")
             payload = {"property": self.prop, "obligation": v["id"], "text": v["text"], "solver_output": v.get("solver"),
                        "replay": v.get("replay"), "repo_head": self.repo.head(), "seed": self.seed,
                        "rerun": f"./check {self.prop} --replay {os.path.relpath(path, ROOT)}"}
@@ -251,8 +254,8 @@ class Report:
             out_lines.append(f"  {v['text']}")
             rc = 1
         ev = self.evidence(level_eff, wall, n_ob, n_ok, n_und, lost)
-        os.makedirs(os.path.join(ROOT, "evidence"), exist_ok=True)
-        with open(os.path.join(ROOT, "evidence", f"{self.prop}.json"), "w") as f:
+        os.makedirs(os.path.join(OUT, "evidence"), exist_ok=True)
+        with open(os.path.join(OUT, "evidence", f"{self.prop}.json"), "w") as f:
             json.dump(ev, f, indent=1)
         try:
             import jsonschema
